@@ -30,6 +30,13 @@ def run(run: Run):
         specs.append({"id": f"c18-{i}", "group": grp, "members": [mem], "log_merlin": False, "log_msm": False, "with_gens": False,
                       "derived": [{"from": 0, "ops": [{"op": "scalar_add", "field": "s1", "hex": gen.hx(1)}]}],
                       "verifies": [{"mode": md, "vmembers": [gen.vmember(mem, p)]} for md in ("RecoverAndVerify", "VerifyOnly", "RecoverOnly") for p in (0, 1)]})
+    # parameter objects with different generators used in one process: nothing derived from one statement's generators may be remembered
+    # for the next (the Pedersen generators are public fields of the parameter object, not process-wide constants)
+    for i, (b, m, T, grp, over) in enumerate([(4, 1, 1, "fm", {"h_scale": gen.hx(3)}), (2, 2, 2, "ristretto", {"gb_scale": [1, gen.hx(5)]}),
+                                              (8, 1, 2, "ristretto", {"h_scale": gen.hx(7)}), (2, 1, 3, "fm", {"gb_scale": [0, gen.hx(2)]}), (4, 2, 1, "fm", {})]):
+        mem = dict(gen.mk_member(rng, b, m, cap=m, T=T, seed=(m == 1)), **over)
+        specs.append({"id": f"c18-gens-{i}", "group": grp, "members": [mem], "log_merlin": False, "log_msm": False, "with_gens": False,
+                      "verifies": [{"mode": md, "vmembers": [gen.vmember(mem, 0)]} for md in ("RecoverAndVerify", "VerifyOnly")], "_must_ok": True})
     # identical calls interleaved with calls that end early with an error (malformed member in the middle of a batch, undecodable point,
     # wrong round count, mismatched statement): the identical calls must keep returning the same result on the same thread
     for i, (b, m, T, grp) in enumerate([(2, 1, 1, "fm"), (4, 2, 2, "ristretto"), (8, 1, 3, "fm")] if quick else
@@ -74,6 +81,13 @@ def run(run: Run):
                     k_ = next(j for j, r_ in enumerate(res) if r_ != res[0] or r_[0] != "ok")
                     run.violation(f"an identical verify_batch call returned a different result after an earlier call on the same thread ended with an error "
                                   f"(call #{idxs[k_]}: {res[k_][0][:60]} vs first: {res[0][0][:30]}; {s['group']})", {"kind": "session", "spec": sessions.strip(s), "verify": idxs[k_]})
+                    break
+        if s.get("_must_ok"):
+            for o_, where in ((alone[i], "fresh process"), (together[i], "after other calls in the same process"), (together[len(specs) + i], "second pass in the same process")):
+                bad = [v["result"] for v in o_["verifies"] if v["result"] != "ok"] + ([o_["members"][0].get("prove")] if o_["members"][0].get("prove") != "ok" else [])
+                if bad:
+                    run.violation(f"prove/verify with a parameter object carrying its own generators failed {where} ({s['group']}): {bad[0][:80]}",
+                                  {"kind": "session", "spec": sessions.strip(s), "where": where})
                     break
         ref = essential(alone[i])
         variants = {"repeat in one process (1st)": together[i], "repeat in one process (2nd)": together[len(specs) + i],
